@@ -29,6 +29,10 @@ type SymInt struct {
 
 type SymBool struct{ T *smt.Term }
 
+// SymFloat is a float64 with a symbolic value, modelled as an exact real (stated bound:
+// floating-point rounding is ignored; it only arises from time.Duration.Seconds() and friends).
+type SymFloat struct{ T *smt.Term }
+
 // TimeByte is byte I (0..28) of sdk.FormatTimeBytes(T) for a symbolic time T.
 type TimeByte struct {
 	T *smt.Term
@@ -360,6 +364,20 @@ func isSymBool(v value) bool { _, ok := v.(SymBool); return ok }
 func (i *interpreter) conv(tDst, tSrc types.Type, x value) value {
 	if _, ok := x.(SymInt); ok {
 		return i.symConv(tDst, tSrc, x)
+	}
+	if f, ok := x.(SymFloat); ok {
+		kd := basicKind(tDst)
+		if bits, _ := kindBits(kd); bits != 0 {
+			// float -> integer conversion truncates toward zero
+			c := i.eng.Ctx
+			fl := c.ToInt(f.T)
+			neg := c.Neg(c.ToInt(c.Neg(f.T)))
+			return mkIntT(kd, c.Ite(c.Ge(f.T, c.Real(new(big.Rat))), fl, neg))
+		}
+		if kd == types.Float64 || kd == types.Float32 {
+			return f
+		}
+		unsupported("conversion of symbolic float to %s", tDst)
 	}
 	return conv(tDst, tSrc, x)
 }
